@@ -84,30 +84,32 @@ fn check_trace_thunk(which: u8) {
 }
 
 // @harness id=c03_trace_done_values props=C03 tier=quick cap=1500
-// @desc GcTrace of ThunkData / ThunkState::Done / ValueData, variant symbolic over Array / Object / Function / Number: the count pass (real GcCountCtx) visits the one Gc handle held by the value exactly once (visits == 1 on the distinct target, 0 on the others) and the mark pass (real GcMarkCtx) queues exactly that target; a number holds none
+// @desc GcTrace of ThunkData / ThunkState::Done / ValueData, for each of the variants Array / Object / Function / Number (enumerated): the count pass (real GcCountCtx) visits the one Gc handle held by the value exactly once (visits == 1 on the distinct target, 0 on the others) and the mark pass (real GcMarkCtx) queues exactly that target; a number holds none
 // @bound one value per query, 4 value variants
 // @funcs <ThunkData as GcTrace>::trace, <ThunkState as GcTrace>::trace, <ValueData as GcTrace>::trace, GcCountCtx::visit_obj, GcMarkCtx::visit_obj
 eval_stubs! {
 #[kani::proof]
 #[kani::unwind(5)]
 fn c03_trace_done_values() {
-    let which: u8 = kani::any();
-    kani::assume(which < 4);
-    check_trace_thunk(which);
+    // the variant is enumerated, not symbolic: a symbolic variant of these large recursive enums costs
+    // CBMC 20 M variables (out of memory); the set of variants is finite, so the enumeration is complete
+    check_trace_thunk(0);
+    check_trace_thunk(1);
+    check_trace_thunk(2);
+    check_trace_thunk(3);
 }
 }
 
 // @harness id=c03_trace_pending_thunks props=C03 tier=quick cap=1500
-// @desc GcTrace of PendingThunk::Expr and ::FieldPlus (variant symbolic): the environment handle is visited exactly once by the count and the mark pass
+// @desc GcTrace of PendingThunk::Expr and ::FieldPlus (both enumerated): the environment handle is visited exactly once by the count and the mark pass
 // @bound 2 pending variants
 // @funcs <PendingThunk as GcTrace>::trace
 eval_stubs! {
 #[kani::proof]
 #[kani::unwind(5)]
 fn c03_trace_pending_thunks() {
-    let which: u8 = kani::any();
-    kani::assume(which == 4 || which == 5);
-    check_trace_thunk(which);
+    check_trace_thunk(4);
+    check_trace_thunk(5);
 }
 }
 
@@ -164,7 +166,7 @@ fn c03_trace_env_and_func() {
 }
 }
 
-// @harness id=c03_trace_object props=C03 tier=quick cap=1500
+// @harness id=c03_trace_object props=C03 tier=thorough cap=5400 mem=40
 // @desc GcTrace of ObjectData / ObjectLayer / ObjectField / ObjectFieldData on a 2-layer object: each layer's base environment and cached environment, and for each of two fields its own base environment and its cached thunk, are visited exactly once (10 distinct handles); Removed markers hold none
 // @bound 2 layers, 2 Normal fields in the self layer, 1 Normal field + 1 Removed marker in the super layer
 // @funcs <ObjectData as GcTrace>::trace, <ObjectLayer as GcTrace>::trace, <ObjectField as GcTrace>::trace, <ObjectFieldData as GcTrace>::trace
@@ -200,6 +202,38 @@ fn c03_trace_object() {
     kani::cover!(true, "object traced");
     core::mem::forget(obj);
     core::mem::forget((envs, thunks));
+}
+}
+
+// @harness id=c03_trace_object_small props=C03 tier=quick cap=1500
+// @desc GcTrace of ObjectData / ObjectLayer / ObjectField / ObjectFieldData on a one-layer object with one field: the layer's base environment, its cached environment, the field's own base environment (set for fields of object comprehensions) and the field's cached thunk are each visited exactly once by the count pass, and the mark pass queues those 4 handles
+// @bound 1 layer, 1 Normal field; 4 distinct handles
+// @funcs <ObjectData as GcTrace>::trace, <ObjectLayer as GcTrace>::trace, <ObjectField as GcTrace>::trace, <ObjectFieldData as GcTrace>::trace
+eval_stubs! {
+#[kani::proof]
+#[kani::unwind(7)]
+fn c03_trace_object_small() {
+    let arena = Arena::new();
+    let interner = StrInterner::new();
+    let f = interner.intern(&arena, "f");
+    let (e0, e1, e2) = (fresh_env(), fresh_env(), fresh_env());
+    let t0 = fresh_thunk();
+    let fields = FHashMap::kani_from_slots([Some((f, mk_field(&e2, &t0))), None, None, None]);
+    let obj = ObjectData {
+        self_layer: mk_traced_layer(&e0, &e1, fields),
+        super_layers: Vec::new(),
+        fields_order: OnceCell::new(),
+        asserts_checked: Cell::new(true),
+    };
+    kani_trace_count(&obj);
+    assert!(e0.kani_visits() == 1, "layer base environment counted once");
+    assert!(e1.kani_visits() == 1, "layer cached environment counted once");
+    assert!(e2.kani_visits() == 1, "field base environment counted once");
+    assert!(t0.kani_visits() == 1, "field thunk counted once");
+    assert!(kani_trace_mark_queue_len(&obj) == 4, "mark pass reaches the same 4 handles");
+    kani::cover!(true, "object traced");
+    core::mem::forget(obj);
+    core::mem::forget((e0, e1, e2, t0));
 }
 }
 
